@@ -48,13 +48,29 @@ PROPS = {
             "HqModel.C04.c04_exact",
             "HqModel.C04.c04_release",
             "HqModel.C04.c04_concise",
+            # clause "the resource values it is told about are the ones it holds" (model M8, Props/C04Env.lean)
+            "HqModel.Env.c04_told_only_held", "HqModel.Env.c04_told_values", "HqModel.Env.c04_told_collision_witness",
+            "HqModel.Env.c04_told_taskset", "HqModel.Env.c04_labels_roundtrip",
         ],
-        "parts": [dict(_PART, clauses=["c04."], tags=["pool", "concise", "alloc", "res"])],
+        "parts": [dict(_PART, clauses=["c04."], tags=["pool", "concise", "alloc", "res"]),
+                  # component env: the REAL worker with the REAL HqTaskLauncher spawns `/bin/sh -c env` for every launch; the
+                  # environment the process printed (HQ_RESOURCE_VALUES_*, HQ_CPUS, CUDA/ROCR_VISIBLE_DEVICES, OMP_*, HQ_PIN), the CPU
+                  # list handed to `taskset` (stand-in script on PATH) and launch failures are compared with model M8
+                  {"component": "env", "driver": "hqm-env", "tags": ["env", "ts", "end", "refused", "ok"], "clauses": ["c04.told"],
+                   "quick": {"cases": 40, "shards": 16, "extra": []}, "thorough": {"cases": 600, "shards": 16, "extra": []}}],
         "assumptions": _COMMON_ASSUMPTIONS + [
             "c04_release and c04_concise carry the side condition NoSingletonGroups (no `Groups` pool with exactly one group; "
             "ResourceDescriptorKind::groups() normalises that to a List). c04_inv, c04_exclusive, c04_exact do not.",
             "c04_handover (prefill_loop hands an allocation to the next task only after taskEnd) belongs to component "
             "`worker` (M2) and is not part of this component.",
+            "c04_told_*: model M8 (HqModel/Env/Model.lean) of pin_program / insert_resources_into_env / allocation_to_labels; the "
+            "allocation (names, labels of the held indices, amounts) is a recorded input taken from the TaskBuildContext the real "
+            "launcher is handed; variable names are a structured type in the model, their text rendering and the parse of the "
+            "printed environment are in the driver / harness (trusted); the HQ_RESOURCE_REQUEST_* echo of the request text, "
+            "multi-node tasks (no resource variables by design) and the kernel-level effect of taskset are not modelled; "
+            "c04_told_values needs distinct normalised resource names (NamesOk, necessary: c04_told_collision_witness -- two "
+            "resources named e.g. `a.b` and `a-b` share HQ_RESOURCE_VALUES_a_b, the later overwrites; an observation, the task is "
+            "still told values it holds: c04_told_only_held is unconditional)",
         ],
         "trusted_base": _TRUSTED,
     },
